@@ -28,7 +28,7 @@ LeavesFull == { JUndef, JNull, JBool(TRUE), JBool(FALSE),
                 JStr(<<8, 12, 13, 9, 0, 127>>),
                 JFn, JSym, JBig, JBox(R(2, 1)), JBox(JStr(<<98>>)), JBox(JBool(FALSE)) }
 LeavesSmall == { JUndef, JNull, JBool(TRUE), JNum(NZero(TRUE)), R(3, 2), JNum(NNaN),
-                 JStr(SAdv), JStr(<<55296, 97>>), JFn, JSym, JBox(R(2, 1)) }
+                 JStr(SAdv), JStr(<<55296, 97>>), JFn, JBox(R(2, 1)) }
 Leaves == IF Small THEN LeavesSmall ELSE LeavesFull
 
 \* a b x "" 1 0 10 __proto__ key-with-quote-and-lone-surrogate
@@ -47,8 +47,9 @@ RepsSmall == { RNone, RList(<< JStr(<<98>>), JStr(<<97>>), JStr(<<98>>) >>), RFn
 SpacesFull == { JUndef, JNull, JBool(TRUE), JNum(NZero(FALSE)), R(1, 1), R(2, 1), R(10, 1), R(11, 1), R(5, 2),
                 JNum(NRat(TRUE, 1, 1)), JNum(NInf(FALSE)), JNum(NInf(TRUE)), JNum(NNaN),
                 JStr(<<9>>), JStr(<<45, 45>>), JStr(<<>>), JStr(<<97, 98, 99, 100, 101, 102, 103, 104, 105, 106, 107>>),
+                JStr(<<32, 9, 32, 9, 32, 9, 32, 9, 32, 9, 10>>),
                 JBox(R(3, 1)), JBox(JStr(<<45>>)), JBox(JBool(TRUE)) }
-SpacesSmall == { JUndef, R(2, 1), JStr(<<9>>) }
+SpacesSmall == { JUndef, R(2, 1), JStr(<<9>>), R(11, 1), JStr(<<32, 9, 32, 9, 32, 9, 32, 9, 32, 9, 10>>) }   \* two of them beyond the clamp
 
 Frame2(kind, key, toj) == [kind |-> kind, key |-> key, toj |-> toj, items |-> <<>>]
 
